@@ -115,50 +115,55 @@ def run(rep, tier="quick", replay=None, evidence_dir=None):
     rep.analysed["corpus types with an expanded AvroSchemaComponent impl"] = len(types)
     rep.floor("C17.R1", "corpus types analysed", len(types), 80 if size == "quick" else 250)
     n_fields = 0
+    import derivecmp
+    shapes_seen = {}
     for T in types:
         gs = bodies["<%s as %s>::get_schema_in_ctxt" % (T, AV)]
         ser = bodies.get("_::<impl _::_serde::Serialize for %s>::serialize" % T)
         if ser is None:
             rep.ob("C17.R1", "%s: serde's Serialize expansion found" % T, False, "", "")
             continue
-        aname, aitems = avro_side(gs)
-        sname, sfields, svariants = serde_side(ser)
-        rep.ob("C17.R1", "%s: schema name = serde name" % T, aname is not None and aname.split(".")[-1] == sname, "derived schema is named %r, serde calls the type %r" % (aname, sname), "corpus type %s" % T)
-        if svariants:
-            syms = [x[0] for x in aitems]
-            want = [svariants[i] for i in sorted(svariants)]
-            n_fields += len(want)
-            rep.ob("C17.R1", "%s: enum symbols = serde variant names, in order" % T, syms == want, "schema symbols %s, serde variants %s" % (syms, want), "corpus type %s" % T)
-        else:
-            an = [x[0] for x in aitems]
-            sn = [x[0] for x in sfields]
-            n_fields += len(sn)
-            rep.ob("C17.R1", "%s: record field names = serde field names, in order" % T, an == sn,
-                   "schema fields %s, serde fields %s: every value of the type fails to serialize under its own derived schema (or a field is silently defaulted)" % (an, sn), "corpus type %s" % T)
-            if an == sn:
-                at = [x[1] for x in aitems]
-                st = [x[1] for x in sfields]
-                ok = all(a is None or s is None or a == s or a == s.lstrip("&") for a, s in zip(at, st))
-                rep.ob("C17.R1", "%s: each field's schema is derived from the type serde serializes" % T, ok, "schema field types %s, serde value types %s" % (at, st), "corpus type %s" % T)
+
+        def ob(inst, ok, detail, T=T):
+            rep.ob("C17.R1", inst, ok, detail, "corpus type %s" % T)
+        n_fields += derivecmp.compare(T, gs, ser, ob)
+        ashape = derivecmp.avro_shape(gs)
+        shapes_seen[ashape[0]] = shapes_seen.get(ashape[0], 0) + 1
+        if ashape[0] == "record":
             # get_record_fields_in_ctxt agrees with get_schema_in_ctxt
             rf = bodies.get("<%s as %s>::get_record_fields_in_ctxt" % (T, AV))
             if rf is not None:
-                _, ritems = avro_side(rf)
-                rep.ob("C17.R1", "%s: get_record_fields_in_ctxt lists the same fields as the schema" % T, [x[0] for x in ritems] == an, "%s vs %s" % ([x[0] for x in ritems], an), "corpus type %s" % T)
-        # ---- R2
+                rs = derivecmp._entries(derivecmp.avro_events(rf))
+                rep.ob("C17.R1", "%s: get_record_fields_in_ctxt lists the same fields as the schema" % T, [e[:2] for e in rs] == [e[:2] for e in ashape[2]], "%s vs %s" % (rs, ashape[2]), "corpus type %s" % T)
+        # ---- R2: every named definition is guarded
         cont = [(bi, t) for bi, t, nm in calls_rpo(gs) if nm and nm[0].startswith("std::collections::HashSet") and nm[0].endswith("::contains")]
         ins = [(bi, t) for bi, t, nm in calls_rpo(gs) if nm and nm[0].startswith("std::collections::HashSet") and nm[0].endswith("::insert")]
-        nested = [bi for bi, t, nm in calls_rpo(gs) if nm and nm[0] == AV + "::get_schema_in_ctxt"]
-        ok = len(cont) == 1 and len(ins) == 1
+        nested = [bi for bi, t, nm in calls_rpo(gs) if nm and nm[0] in (AV + "::get_schema_in_ctxt", AV + "::get_record_fields_in_ctxt")]
+        # number of named definitions the expansion builds: its own (record / enum / named union) plus one per record branch
+        ndef = 0
+        if ashape[0] in ("record", "enum_or_empty"):
+            ndef = 1
+        elif ashape[0] == "union":
+            ndef = (1 if ashape[1] is not None else 0) + sum(1 for v in ashape[2] if v[0] == "record")
+        if ashape[0] in ("transparent", "unknown"):
+            continue
+        ok = len(cont) == ndef and len(ins) == ndef
+        why = "named definitions %d, `contains` guards %d, registrations %d" % (ndef, len(cont), len(ins))
         if ok:
-            sw = shape.call_bool_switch(gs, cont[0][0])
-            ok = False
-            if sw:
-                reg = edge_only_region(gs, sw[0], sw[2])
-                refs = [1 for x in (reg or []) for st in gs.blocks[x]["stmts"] if st["s"] == "assign" and st["rv"]["r"] == "agg" and st["rv"].get("variant") == "Ref"]
-                ok = bool(refs) and gs.dominates(sw[1], ins[0][0]) and all(gs.dominates(ins[0][0], nb) for nb in nested)
-        rep.ob("C17.R2", "%s: already-seen check answers with a reference; the name is registered before nested schemas are built" % T, ok,
-               "a recursive type would not terminate / a repeated type would be defined twice", "corpus type %s" % T)
+            for (cbi, ct), (ibi, it) in zip(cont, ins):
+                sw = shape.call_bool_switch(gs, cbi)
+                good = False
+                if sw:
+                    reg = edge_only_region(gs, sw[0], sw[2])
+                    refs = [1 for x in (reg or []) for st in gs.blocks[x]["stmts"] if st["s"] == "assign" and st["rv"]["r"] == "agg" and st["rv"].get("variant") == "Ref"]
+                    mine = [nb for nb in nested if gs.dominates(sw[1], nb)]
+                    good = bool(refs) and gs.dominates(sw[1], ibi) and all(gs.dominates(ibi, nb) for nb in mine)
+                if not good:
+                    ok = False
+                    why = "the guard at %s does not answer with a reference / register the name before nested schemas are built" % gs.loc(cbi)
+        rep.ob("C17.R2", "%s: every named definition is looked up first (seen -> reference) and registered before nested schemas are built" % T, ok,
+               "a recursive type would not terminate / a type used twice would define the same name twice (%s)" % why, "corpus type %s" % T)
+    rep.analysed["schema shapes in the corpus"] = dict(shapes_seen)
     rep.analysed["field / symbol names compared"] = n_fields
     rep.floor("C17.R1", "names compared", n_fields, 250 if size == "quick" else 800)
 
@@ -200,6 +205,57 @@ def run(rep, tier="quick", replay=None, evidence_dir=None):
                 rep.ob("C17.R4", "an integer JSON default is written for a %s field" % S, bool(writes),
                        "the parser accepts `\"default\": 0` for a %s field (an integer resolves to %s) but the default writer has no success path for an integer number there: a value whose field serde skips fails to serialize" % (S.lower(), S), fd.loc())
             rep.floor("C17.R4", "numeric / date-time shapes that accept an integer default", n4, 10)
+
+    # ---------------------------------------------------------------- R5: wrapper impls pass on T's default only with T's schema
+    # `impl AvroSchemaComponent for Box<T> / &T / [T; N] / ...`: when field_default() answers with T::field_default(), the schema
+    # must be T's schema (get_schema_in_ctxt answers with T::get_schema_in_ctxt's result), otherwise the derived field carries a
+    # default that does not conform to its schema. For const-generic impls the two functions are compared per hypothetical N.
+    rep.rule("C17.R5", "a wrapper type hands on its parameter's field default only where it hands on the parameter's schema unchanged")
+    from shape import hyp_reach
+    n5 = 0
+    SFX_D = " as serde::derive::AvroSchemaComponent>::field_default"
+    SFX_S = " as serde::derive::AvroSchemaComponent>::get_schema_in_ctxt"
+
+    def delegates(body, callee_suffix, hyp):
+        """under the hypothesis: does the function return exactly the result of <param type>::<callee> on some path, and
+        does it return anything else on some path"""
+        reg = hyp_reach(body, [0], lambda bi, t: None, tyconst=hyp)
+        direct = other = False
+        for bi in reg:
+            t = body.blocks[bi]["term"]
+            if t["t"] == "call" and t["dest"]["l"] == 0 and not t["dest"]["p"]:
+                nm = callee_names(t["func"])[0]
+                ga = t["func"].get("ga") or []
+                # the trait method called on a bare type parameter (T), not on a concrete or composite type
+                if nm.endswith(callee_suffix) and len(ga) >= 1 and str(ga[0]).isidentifier():
+                    direct = True
+                else:
+                    other = True
+            for st in body.blocks[bi]["stmts"]:
+                if st["s"] == "assign" and st["pl"]["l"] == 0 and not st["pl"]["p"]:
+                    other = True
+        return direct, other
+    for k, bd in sorted(prog.bodies.items()):
+        if not k.endswith(SFX_D) or bd.crate != "apache_avro":
+            continue
+        bs = prog.bodies.get(k[:-len(SFX_D)] + SFX_S)
+        if bs is None:
+            continue
+        consts = sorted(set(o.get("tyconst") for bb in (bd, bs) for _, _, st in bb.stmts() if st["s"] == "assign" and st["rv"]["r"] == "bin"
+                            for o in (st["rv"]["a"], st["rv"]["b"]) if o.get("k") == "const" and o.get("tyconst")))
+        hyps = [None]
+        if consts:
+            hyps = [dict((c, v) for c in consts) for v in (0, 1, 2, 3, 17)]
+        for h in hyps:
+            dd, do_ = delegates(bd, "AvroSchemaComponent::field_default", h)
+            sd_, so_ = delegates(bs, "AvroSchemaComponent::get_schema_in_ctxt", h)
+            if not dd:
+                continue   # the wrapper answers with its own default (or none): nothing to pass on
+            n5 += 1
+            ty = k[1:-len(SFX_D)]
+            rep.ob("C17.R5", "%s%s: the parameter's default is passed on only together with the parameter's schema" % (ty, (" with %s" % h) if h else ""), sd_ and not so_,
+                   "field_default() answers with the parameter type's default while get_schema_in_ctxt() builds a different schema: a derived field of this type gets a default that does not conform to its schema (the derived schema cannot be parsed back / written to a file header)", bd.loc())
+    rep.floor("C17.R5", "wrapper impls (x hypothetical const values) that pass on the parameter's default", n5, 5)
 
     rep.not_decided = ["validity of the derived schema beyond names, order and field types (defaults, docs, namespaces of nested types)", "JSON round trip of the derived schema, value round trips, container files: need execution",
                        "run-time handling of skipped fields' defaults (serde::ser_schema::record::field_default)"]
